@@ -210,4 +210,6 @@ def run_reader(scc_text, text_align=None):
   cfg = None
   if text_align is not None:
     cfg = SccReaderConfiguration(text_align=TextAlignment.from_value(text_align))
-  return to_model(scc_text, cfg)
+  from .core import AltContext, alt_for
+  with AltContext(alt_for(("scc", len(scc_text), scc_text[:60]))) as ac:
+    return to_model(scc_text, cfg, ac.progress)
